@@ -1,5 +1,5 @@
 /-
-T1 tie (DESIGN.md 1.3): every definition of `MpcVerif/Gen/Leaf.lean` — which
+T1 tie (DESIGN.md 1.3): every definition of `MpcVerif/Gen/LeafC01.lean` — which
 `harness/cmd/gofacts translate` REGENERATES from the current Go source of
 `ot/label.go`, `circuit/garble.go`, `circuit/helpers.go` on every run of
 `checks/t1.py` — equals the hand-written model (`Model/LabelBV.lean`,
@@ -14,80 +14,11 @@ takes a `Nat` (`tweak t = ofNat 128 (t % 2^32)`).  The ties are stated for
 `data` is universally quantified (the result does not depend on it).
 Core Lean only.
 -/
-import MpcVerif.Gen.Leaf
-import MpcVerif.Model.LabelBV
+import MpcVerif.Gen.LeafC01
+import MpcVerif.Proofs.GenTieLib
 
 namespace Mpc.GenTie
 open Mpc Mpc.Gen
-
-/-- The 128-bit value of a label: `D0` is the high word. -/
-def join (d0 d1 : BitVec 64) : BitVec 128 := d0 ++ d1
-/-- `joinL l = join l.D0 l.D1` (reducible). -/
-abbrev joinL (l : Gen.Label) : BitVec 128 := join l.1 l.2
-def hi64 (x : BitVec 128) : BitVec 64 := x.extractLsb' 64 64
-def lo64 (x : BitVec 128) : BitVec 64 := x.extractLsb' 0 64
-
-theorem getLsbD_join (a b : BitVec 64) (i : Nat) :
-    (join a b).getLsbD i = if i < 64 then b.getLsbD i else a.getLsbD (i - 64) :=
-  BitVec.getLsbD_append
-
-theorem hi64_join (a b : BitVec 64) : hi64 (join a b) = a := by
-  apply BitVec.eq_of_getLsbD_eq; intro i hi
-  simp [hi64, getLsbD_join, hi]
-theorem lo64_join (a b : BitVec 64) : lo64 (join a b) = b := by
-  apply BitVec.eq_of_getLsbD_eq; intro i hi
-  simp [lo64, getLsbD_join, hi]
-theorem join_hi_lo (x : BitVec 128) : join (hi64 x) (lo64 x) = x := by
-  apply BitVec.eq_of_getLsbD_eq; intro i hi
-  simp only [hi64, lo64, getLsbD_join, BitVec.getLsbD_extractLsb']
-  by_cases h : i < 64
-  · simp [h]
-  · have h1 : i - 64 < 64 := by omega
-    have h2 : 64 + (i - 64) = i := by omega
-    simp [h, h1, h2]
-theorem join_inj {a b c d : BitVec 64} : join a b = join c d ↔ a = c ∧ b = d := by
-  constructor
-  · intro h
-    exact ⟨by simpa [hi64_join] using congrArg hi64 h, by simpa [lo64_join] using congrArg lo64 h⟩
-  · rintro ⟨rfl, rfl⟩; rfl
-theorem join_xor (a b c d : BitVec 64) : join a b ^^^ join c d = join (a ^^^ c) (b ^^^ d) := BitVec.xor_append
-theorem join_and (a b c d : BitVec 64) : join a b &&& join c d = join (a &&& c) (b &&& d) := BitVec.and_append
-theorem join_or (a b c d : BitVec 64) : join a b ||| join c d = join (a ||| c) (b ||| d) := BitVec.or_append
-theorem join_msb (a b : BitVec 64) : (join a b).msb = a.msb := by
-  rw [BitVec.msb_eq_getLsbD_last, BitVec.msb_eq_getLsbD_last, getLsbD_join]; simp
-
-theorem join_shl (a b : BitVec 64) (n : Nat) (hn : n ≤ 64) :
-    join a b <<< n = join (a <<< n ||| b >>> (64 - n)) (b <<< n) := by
-  apply BitVec.eq_of_getLsbD_eq; intro i hi
-  simp only [getLsbD_join, BitVec.getLsbD_shiftLeft, BitVec.getLsbD_or, BitVec.getLsbD_ushiftRight]
-  by_cases h : i < 64 <;> by_cases h0 : i < n
-  · simp [h, h0, hi]
-  · have : i - n < 64 := by omega
-    simp [h, h0, hi, this]
-  · omega
-  · have h2 : ¬ (i - n < 64) ∨ i - n < 64 := by omega
-    have h3 : i - 64 < 64 := by omega
-    rcases h2 with h2 | h2
-    · have h5 : ¬ (i - 64 < n) := by omega
-      have h6 : i - 64 - n = i - n - 64 := by omega
-      have h7 : b.getLsbD (64 - n + (i - 64)) = false := by
-        apply BitVec.getLsbD_of_ge; omega
-      simp [h, h0, hi, h2, h3, h5, h6, h7]
-    · have h5 : i - 64 < n := by omega
-      have h4 : 64 - n + (i - 64) = i - n := by omega
-      simp [h, h0, hi, h2, h3, h5, h4]
-
-theorem toNat_join (a b : BitVec 64) : (join a b).toNat = a.toNat <<< 64 ||| b.toNat := BitVec.toNat_append a b
-
-theorem append_eq_join (a b : BitVec 64) : a ++ b = join a b := rfl
-theorem extract_hi (x : BitVec 128) : BitVec.extractLsb' 64 64 x = hi64 x := rfl
-theorem extract_lo (x : BitVec 128) : BitVec.extractLsb' 0 64 x = lo64 x := rfl
-
-/-- Closes `join A B = join A' B'` (or an equation of 128-bit XOR/AND terms) up to
-associativity/commutativity, so that the ties survive a reordering of operands in the Go source. -/
-macro "join_ac" : tactic =>
-  `(tactic| first | with_reducible rfl | ac_rfl
-                  | (rw [join_inj]; constructor <;> first | with_reducible rfl | ac_rfl))
 
 theorem tie_Xor (l o : Gen.Label) : joinL (Label.Xor l o) = joinL l ^^^ joinL o := by
   simp only [Label.Xor, joinL, join_xor] <;> join_ac
@@ -104,11 +35,6 @@ theorem tie_GetData (l : Gen.Label) (buf : BitVec 128) : Label.GetData l buf = j
 theorem tie_SetData (l : Gen.Label) (d : BitVec 128) : joinL (Label.SetData l d) = d := by
   simp only [Label.SetData, joinL, extract_hi, extract_lo, join_hi_lo]
 
-/-- The model's tweak label, split into words (independent of the generated code). -/
-theorem tweak_eq_join (t : BitVec 32) : tweak t.toNat = join 0#64 (BitVec.setWidth 64 t) := by
-  apply BitVec.eq_of_toNat_eq
-  simp [toNat_join, tweak]
-  omega
 theorem tie_NewTweak (t : BitVec 32) : joinL (NewTweak t) = tweak t.toNat := by
   rw [tweak_eq_join]; rfl
 
@@ -127,17 +53,6 @@ theorem tie_decrypt (π : BitVec 128 → BitVec 128) (a b c : Gen.Label) (t : Bi
   simp only [Gen.decrypt, hashOf, tie_Xor, tie_SetData, tie_GetData, tie_makeK] <;> ac_rfl
 
 
-theorem and_twoPow_ne_zero (a : BitVec 64) (k : Nat) (hk : k < 64) :
-    (a &&& BitVec.twoPow 64 k != 0#64) = a.getLsbD k := by
-  rw [BitVec.and_twoPow]
-  cases h : a.getLsbD k
-  · simp
-  · have h2 : BitVec.twoPow 64 k ≠ 0#64 := by
-      intro h2
-      have := congrArg (fun x => x.getLsbD k) h2
-      simp [hk] at this
-    simp [h2]
-
 theorem tie_S (l : Gen.Label) : Label.S l = (joinL l).msb := by
   have h : (0x8000000000000000#64) = BitVec.twoPow 64 63 := by decide
   simp only [Label.S, h, join_msb]
@@ -151,8 +66,6 @@ theorem tie_SetS (l : Gen.Label) (s : Bool) :
   · simp only [Label.SetS, Bool.false_eq_true, if_false, h0, joinL, join_and, BitVec.and_allOnes]
   · simp only [Label.SetS, setS, if_true, h1, joinL, join_or, BitVec.or_zero]
 
-theorem sbit_eq (x : BitVec 128) : LabelAlg.sbit x = x.msb := rfl
-
 theorem tie_idxUnary (a : Gen.Label) : (Gen.idxUnary a).toNat = Mpc.idxUnary (joinL a) := by
   simp only [Gen.idxUnary, Mpc.idxUnary, tie_S, sbit_eq]
   by_cases h : (joinL a).msb = true <;> simp [h]
@@ -164,11 +77,6 @@ theorem tie_LabelForBit (w : Gen.Wire) (b : Bool) :
     joinL (Gen.LabelForBit w b) = WireL.labelFor ⟨joinL w.1, joinL w.2⟩ b := by
   cases b <;> simp [Gen.LabelForBit, WireL.labelFor]
 
-/-- `K = 2x ⊕ i` of the model, in words (independent of the generated code). -/
-theorem makeKHalf_words (a b : BitVec 64) (i : BitVec 32) :
-    Mpc.makeKHalf (join a b) i.toNat = join (a <<< 1 ||| b >>> 63) (b <<< 1 ^^^ BitVec.setWidth 64 i) := by
-  rw [Mpc.makeKHalf, tweak_eq_join, join_shl a b 1 (by omega), join_xor, BitVec.xor_zero]
-
 theorem tie_encryptHalf (π : BitVec 128 → BitVec 128) (x : Gen.Label) (i : BitVec 32) (data : BitVec 128) :
     joinL (Gen.encryptHalf π x i data) = (hashOf π).h1 (joinL x) i.toNat := by
   first
@@ -177,38 +85,6 @@ theorem tie_encryptHalf (π : BitVec 128 → BitVec 128) (x : Gen.Label) (i : Bi
        rw [← join_xor, join_hi_lo, makeKHalf_words])
     | -- written with makeKHalf / GetData / SetData / Xor calls (`encryptHalfReference`)
       (simp only [Gen.encryptHalf, hashOf, tie_Xor, tie_SetData, tie_GetData, tie_makeKHalf] <;> ac_rfl)
-
-/-- Position in the joined 128-bit value of Go's label bit `j` (bits 0..63 live in D0). -/
-def goBitPos (j : Nat) : Nat := if j < 64 then j + 64 else j - 64
-
-theorem slt_lit (i : BitVec 64) (c : Nat) (hc : c < 2^63) :
-    BitVec.slt (BitVec.ofNat 64 c) i = decide (c < i.toNat ∧ i.toNat < 2^63) := by
-  have := i.isLt
-  rw [Bool.eq_iff_iff]
-  simp only [BitVec.slt, BitVec.toInt_eq_toNat_cond, BitVec.toNat_ofNat, decide_eq_true_eq]
-  rw [Nat.mod_eq_of_lt (by omega)]
-  split <;> split <;> omega
-theorem slt_zero (i : BitVec 64) : BitVec.slt i 0#64 = decide (2^63 ≤ i.toNat) := by
-  have := i.isLt
-  rw [Bool.eq_iff_iff]
-  simp only [BitVec.slt, BitVec.toInt_eq_toNat_cond, BitVec.toNat_ofNat, decide_eq_true_eq]
-  split <;> omega
-theorem sle_lit (i : BitVec 64) (c : Nat) (hc : c < 2^63) :
-    BitVec.sle (BitVec.ofNat 64 c) i = decide (c ≤ i.toNat ∧ i.toNat < 2^63) := by
-  have := i.isLt
-  rw [Bool.eq_iff_iff]
-  simp only [BitVec.sle, BitVec.toInt_eq_toNat_cond, BitVec.toNat_ofNat, decide_eq_true_eq]
-  rw [Nat.mod_eq_of_lt (by omega)]
-  split <;> split <;> omega
-theorem and_one (d : BitVec 64) (n : Nat) : (d >>> n) &&& 1#64 = if d.getLsbD n then 1#64 else 0#64 := by
-  apply BitVec.eq_of_getLsbD_eq; intro i hi
-  by_cases h0 : i = 0
-  · subst h0; cases h : d.getLsbD n <;> simp [h]
-  · cases h : d.getLsbD n <;> simp [h0]
-
-theorem sub64_toNat (i : BitVec 64) (h : 64 ≤ i.toNat) : (i - 64#64).toNat = i.toNat - 64 := by
-  have := i.isLt
-  rw [BitVec.toNat_sub]; simp; omega
 
 theorem tie_Bit (l : Gen.Label) (i : BitVec 64) :
     Label.Bit l i =
@@ -227,42 +103,6 @@ theorem tie_Bit (l : Gen.Label) (i : BitVec 64) :
     · by_cases h3 : 2^63 ≤ i.toNat
       · simp [h2, h3]
       · simp [h2, h3, show 127 < i.toNat by omega, show i.toNat < 2^63 by omega]
-
-theorem join_not (a b : BitVec 64) : ~~~ join a b = join (~~~a) (~~~b) := BitVec.not_append
-theorem twoPow_lo (k : Nat) (hk : k < 64) : BitVec.twoPow 128 k = join 0#64 (BitVec.twoPow 64 k) := by
-  apply BitVec.eq_of_getLsbD_eq; intro i hi
-  simp only [getLsbD_join, BitVec.getLsbD_twoPow]
-  by_cases h : i < 64
-  · simp [h, hk, show k < 128 by omega]
-  · simp [h, show k < 128 by omega]; omega
-theorem twoPow_hi (k : Nat) (hk : k < 64) : BitVec.twoPow 128 (k + 64) = join (BitVec.twoPow 64 k) 0#64 := by
-  apply BitVec.eq_of_getLsbD_eq; intro i hi
-  simp only [getLsbD_join, BitVec.getLsbD_twoPow]
-  by_cases h : i < 64
-  · simp [h, show k + 64 < 128 by omega]; omega
-  · simp only [h, hk, show k + 64 < 128 by omega, if_false, decide_true, Bool.true_and]
-    rw [Bool.eq_iff_iff]; simp; omega
-
-/-- The 128-bit mask `SetBit(i, ·)` works with: bit `goBitPos i` for `i < 128`, nothing beyond (the Go
-shift `1 << (i-64)` is 0 for `i ≥ 128`). -/
-def goBitMask (i : Nat) : BitVec 128 := if i < 128 then BitVec.twoPow 128 (goBitPos i) else 0#128
-
-theorem twoPow_ge (m : Nat) (h : 64 ≤ m) : BitVec.twoPow 64 m = 0#64 := by
-  apply BitVec.eq_of_getLsbD_eq; intro i hi
-  simp [BitVec.getLsbD_twoPow]; omega
-theorem join_zero : join 0#64 0#64 = 0#128 := by decide
-theorem goBitMask_eq (n : Nat) :
-    goBitMask n = if n < 64 then join (BitVec.twoPow 64 n) 0#64 else join 0#64 (BitVec.twoPow 64 (n - 64)) := by
-  unfold goBitMask goBitPos
-  by_cases h1 : n < 64
-  · simp only [h1, show n < 128 by omega, if_true]; exact twoPow_hi n h1
-  · by_cases h2 : n < 128
-    · simp only [h1, h2, if_true, if_false]; exact twoPow_lo _ (by omega)
-    · simp only [h1, h2, if_false, twoPow_ge _ (show 64 ≤ n - 64 by omega), join_zero]
-
-theorem and_ones64 (x : BitVec 64) : x &&& 18446744073709551615#64 = x := by
-  have h : (18446744073709551615#64) = BitVec.allOnes 64 := by decide
-  rw [h, BitVec.and_allOnes]
 
 theorem tie_SetBit (l : Gen.Label) (i b : BitVec 64) :
     (Label.SetBit l i b).map joinL =
@@ -293,39 +133,7 @@ theorem tie_SetBit (l : Gen.Label) (i b : BitVec 64) :
         · simp [hb0, hb1]
 
 
-/-! ### `for i := A; i < B; i++` loops: generated as folds over `List.range` -/
-
-/-- A fold over `List.range n` computes `g n` when `g` satisfies the step equation below `n`. -/
-theorem foldl_range_eq {σ : Type} (f : σ → Nat → σ) (g : Nat → σ) (n : Nat) (init : σ) (h0 : g 0 = init)
-    (hs : ∀ k, k < n → f (g k) k = g (k + 1)) : (List.range n).foldl f init = g n := by
-  induction n with
-  | zero => simpa using h0.symm
-  | succ m ih =>
-    rw [List.range_succ, List.foldl_append, ih (fun k hk => hs k (by omega))]
-    simpa using hs m (by omega)
-
-theorem ofNat_up_toNat (k : Nat) (hk : k < 2^64) : (BitVec.ofNat 64 (0 + k)).toNat = k := by
-  simp only [BitVec.toNat_ofNat]; omega
-theorem ofNat_up_eq_zero (k : Nat) (hk : k < 2^64) : (BitVec.ofNat 64 (0 + k) == 0#64) = decide (k = 0) := by
-  rw [Bool.eq_iff_iff]; simp only [beq_iff_eq, decide_eq_true_eq]
-  constructor
-  · intro h; have := congrArg BitVec.toNat h; rw [ofNat_up_toNat k hk] at this; simpa using this
-  · rintro rfl; rfl
-theorem sub_up_toNat (c k : Nat) (hc : c < 2^64) (hk : k ≤ c) :
-    (BitVec.ofNat 64 c - BitVec.ofNat 64 (0 + k)).toNat = c - k := by
-  simp only [BitVec.toNat_sub, BitVec.toNat_ofNat]; omega
-theorem and_one_ne_zero (d : BitVec 64) (n : Nat) : ((d >>> n) &&& 1#64 != 0#64) = d.getLsbD n := by
-  rw [and_one]; cases d.getLsbD n <;> decide
-theorem and_one_eq_zero (d : BitVec 64) (n : Nat) : ((d >>> n) &&& 1#64 == 0#64) = !d.getLsbD n := by
-  rw [and_one]; cases d.getLsbD n <;> decide
-theorem and_one_eq_one (d : BitVec 64) (n : Nat) : ((d >>> n) &&& 1#64 == 1#64) = d.getLsbD n := by
-  rw [and_one]; cases d.getLsbD n <;> decide
-
-
 /-! ### The same ties with the model's `Nat` tweak, for `t < 2^32` -/
-
-theorem ofNat32_toNat (t : Nat) (ht : t < 2^32) : (BitVec.ofNat 32 t).toNat = t := by
-  simp only [BitVec.toNat_ofNat]; omega
 
 theorem tie_NewTweak_nat (t : Nat) (ht : t < 2^32) : joinL (NewTweak (BitVec.ofNat 32 t)) = tweak t := by
   rw [tie_NewTweak, ofNat32_toNat t ht]
